@@ -192,6 +192,22 @@ func c31DecodeBatches(b []byte) ([]kbatch.Batch, [][]byte, error) {
 	return out, raws, nil
 }
 
+// c31CodecPrepass walks the frames of the rewritten bytes and compares the codec
+// bits of each batch header with the original batch at the same position.
+func c31CodecPrepass(after []byte, orig []c31Batch) string {
+	for i := 0; len(after) > 0 && i < len(orig); i++ {
+		n, err := kbatch.FrameLen(after)
+		if err != nil {
+			return "" // left to the full decode
+		}
+		if got := int(binary.BigEndian.Uint16(after[21:]) & 7); got != orig[i].Codec {
+			return fmt.Sprintf("batch %d was %s, is %s after the rewrite", i, c31CodecName(orig[i].Codec), c31CodecName(got))
+		}
+		after = after[n:]
+	}
+	return ""
+}
+
 func c31CodecName(c int) string {
 	if c >= 0 && c < len(c31CodecNames) {
 		return c31CodecNames[c]
@@ -551,19 +567,41 @@ type c31Envelope struct {
 // the check
 // ---------------------------------------------------------------------------
 
-func TestVerifC31Rewrite(t *testing.T) {
-	r := verifkit.Start(t, "C31", "rewrite")
-	defer r.Finish("PRNG produce requests (API v3-9; 1-3 topics x 1-3 partitions x 0-3 batches; codecs none/gzip/snappy(raw+xerial)/lz4/zstd; 1-5 records per batch with null/empty keys and values, hostile timestamp deltas, gapped offset deltas, duplicate headers, the flag header at any position / twice / with declared checksums; S3 chunk size lowered in some cases so that Upload takes its multipart branch) are parsed with protocol.ParseRequest and rewritten by the real rewriteProduceRecords against an S3 stand-in with real multipart semantics. Reference view (kit kbatch + own decompression) before/after: same topics/partitions/batch count/record count and order; a batch without a flagged record is byte-identical; every batch header field incl. codec bits unchanged, Length frames exactly, CRC32C verifies, NumRecords == records present; unflagged records identical in every field (null vs empty distinguished); flagged records keep attributes/deltas/key, headers == original minus LFS_BLOB entries, value decodes (pkg/lfs and own JSON) to an envelope whose key is new, unique, in the configured bucket, and whose stored object bytes == original value with size, SHA-256 and declared checksum correct; finally the proxy's fan-out encoder (encodeProduceRequest) is applied and the bytes a broker parses are compared with the rewritten ones. non-trivial = a request that was rewritten and held at least one flagged record",
+func TestVerifC31Rewrite(t *testing.T) { c31Run(t, "rewrite", false) }
+
+// TestVerifC31Routing drives the same workload and oracle through the proxy's
+// produce path (handleProduceRouting: parse, LFS rewrite, fan-out, re-encode)
+// and judges the bytes a TCP broker actually receives.
+func TestVerifC31Routing(t *testing.T) { c31Run(t, "routing", true) }
+
+const c31Rule = "PRNG produce requests (API v3-9; 1-3 topics (a topic may be listed twice) x 1-3 partitions x 0-3 batches; codecs none/gzip/snappy(raw+xerial)/lz4/zstd; 1-5 records per batch with null/empty keys and values, 1 KiB keys, hostile timestamp deltas, gapped offset deltas, duplicate headers, the flag header at any position / twice / with declared checksums; a few 5 MiB+ values; S3 chunk size lowered in some cases so that Upload takes its multipart branch; a few produce-v2 requests with magic-1 message sets that cannot carry a flag) against an S3 stand-in with real multipart semantics. Reference view (kit kbatch + own decompression) before/after: same topics/partitions/batch count/record count and order; a batch or partition without a flagged record is byte-identical; every batch header field incl. codec bits unchanged, Length frames exactly, CRC32C verifies, NumRecords == records present; unflagged records identical in every field (null vs empty distinguished); flagged records keep attributes/deltas/key, headers == original minus LFS_BLOB entries, value decodes (pkg/lfs and own JSON) to an envelope whose key is new, unique, in the configured bucket, and whose stored object bytes == original value with size, SHA-256 and declared checksum correct. non-trivial = a request that was rewritten and held at least one flagged record. "
+
+func c31Run(t *testing.T, leg string, routed bool) {
+	r := verifkit.Start(t, "C31", leg)
+	rule := c31Rule + "This leg: requests are parsed with protocol.ParseRequest and handed to the real rewriteProduceRecords; 'after' is the in-place rewritten request, which is additionally passed through the fan-out encoder (encodeProduceRequest) and read back."
+	if routed {
+		rule = c31Rule + "This leg: the wire request goes through the real (*proxy).handleProduceRouting with the LFS module enabled and one TCP backend; 'after' is the produce request that the backend received."
+	}
+	defer r.Finish(rule,
 		"a null flagged value is stored as an empty object (null and empty are both 'exactly the original value' of length 0)",
 		"'loses only its flag header' is read as: every header whose key is exactly LFS_BLOB is removed, nothing else (LFS_BLOB_ALG stays)",
 		"requests that carry a record the proxy must refuse (wrong declared checksum, unsupported algorithm, checksum with alg none, blob over the size limit) are expected to fail as a whole; nothing is judged on them beyond 'an error was returned'",
-		"the harness lowers s3Uploader.chunkSize in-package (64/1000/1 bytes) to reach the multipart branch without 5 MiB records; the stand-in's minimum-part rule is disabled in this leg for that reason")
+		"the harness lowers s3Uploader.chunkSize in-package (64/1000/1 bytes) to reach the multipart branch without 5 MiB records; the stand-in's minimum-part rule is disabled in this check for that reason",
+		"race detector off for this check: one goroutine, pure input->output property; under -race the per-batch kgo compressor pools built by the code under test make a case cost seconds")
 
 	logger := slog.New(slog.NewTextHandler(io.Discard, nil))
 	s3f := newVfS3(0)
-	n := r.N(800, 12000)
+	n := r.N(600, 12000)
+	if routed {
+		n = r.N(300, 4000)
+	}
 	if v, err := strconv.Atoi(os.Getenv("C31_DEV_N")); err == nil && v > 0 {
 		n = v // development knob only; never set by bin/check
+	}
+	var broker *vfBroker
+	if routed {
+		broker = newVfBroker(t)
+		defer broker.Close()
 	}
 	seenKeys := map[string]bool{}
 	for ci := 0; ci < n; ci++ {
@@ -636,14 +674,41 @@ func TestVerifC31Rewrite(t *testing.T) {
 		var res lfsRewriteResult
 		var rerr error
 		var panicked any
-		t0 := time.Now()
-		func() {
-			defer func() { panicked = recover() }()
-			res, rerr = m.rewriteProduceRecords(context.Background(), header, req)
-		}()
-		if os.Getenv("C31_DEV_N") != "" {
-			if d := time.Since(t0); d > 200*time.Millisecond {
-				t.Logf("dev: case %d rewrite took %v chunk=%d desc=%v", ci, d, c.ChunkSize, c31Describe(&c))
+		afterTopics := req.Topics
+		if !routed {
+			func() {
+				defer func() { panicked = recover() }()
+				res, rerr = m.rewriteProduceRecords(context.Background(), header, req)
+			}()
+			afterTopics = req.Topics
+		} else {
+			broker.Set("ok")
+			px := &proxy{backends: []string{broker.Addr()}, logger: logger, dialTimeout: 60 * time.Second, backendRetries: 1, backendBackoff: time.Millisecond, lfs: m}
+			pool := newConnPool(60 * time.Second)
+			var resp []byte
+			func() {
+				defer func() { panicked = recover() }()
+				resp, rerr = px.handleProduceRouting(context.Background(), header, wire, pool)
+			}()
+			pool.Close()
+			if panicked == nil && rerr == nil {
+				raws := broker.Raws()
+				if len(raws) != 1 {
+					r.Inconclusive(fmt.Sprintf("case %d: the backend received %d requests for one produce (response %d bytes)", ci, len(raws), len(resp)))
+					r.Case(c31Sig(&c), false)
+					continue
+				}
+				got := kmsg.NewPtrProduceRequest()
+				got.Version = c.Version
+				body := c31SkipRequestHeader(raws[0], c.Version >= 9)
+				if body == nil || got.ReadFrom(body) != nil {
+					r.Violation("forwarded_request_unreadable", "the produce request received by the backend cannot be read back with kmsg", map[string]any{"case": ci, "seed": r.Seed, "forwarded_hex": c31Hex(raws[0])})
+					r.Case(c31Sig(&c), false)
+					continue
+				}
+				afterTopics = got.Topics
+				res.modified = c.NFlagged > 0
+				r.Count("requests_received_by_backend", 1)
 			}
 		}
 		replay := func(extra map[string]any) map[string]any {
@@ -686,17 +751,17 @@ func TestVerifC31Rewrite(t *testing.T) {
 			// informational only: "modified" is internal, the statement is about the bytes
 			r.Count("modified_flag_disagrees_with_flag_presence", 1)
 		}
-		if len(req.Topics) != len(c.Topics) {
-			viol("topic_count_changed", fmt.Sprintf("%d topics became %d", len(c.Topics), len(req.Topics)), nil)
+		if len(afterTopics) != len(c.Topics) {
+			viol("topic_count_changed", fmt.Sprintf("%d topics became %d", len(c.Topics), len(afterTopics)), nil)
 		}
-		for ti := 0; ti < len(c.Topics) && ti < len(req.Topics) && ok; ti++ {
+		for ti := 0; ti < len(c.Topics) && ti < len(afterTopics) && ok; ti++ {
 			tp := c.Topics[ti]
-			if req.Topics[ti].Topic != tp.Name || len(req.Topics[ti].Partitions) != len(tp.Parts) {
-				viol("topic_or_partition_list_changed", fmt.Sprintf("topic %d: %q/%d partitions became %q/%d", ti, tp.Name, len(tp.Parts), req.Topics[ti].Topic, len(req.Topics[ti].Partitions)), nil)
+			if afterTopics[ti].Topic != tp.Name || len(afterTopics[ti].Partitions) != len(tp.Parts) {
+				viol("topic_or_partition_list_changed", fmt.Sprintf("topic %d: %q/%d partitions became %q/%d", ti, tp.Name, len(tp.Parts), afterTopics[ti].Topic, len(afterTopics[ti].Partitions)), nil)
 				break
 			}
 			for pi, p := range tp.Parts {
-				after := req.Topics[ti].Partitions[pi]
+				after := afterTopics[ti].Partitions[pi]
 				loc := map[string]any{"topic": tp.Name, "partition": p.Partition, "before_records_hex": c31Hex(p.Wire), "after_records_hex": c31Hex(after.Records)}
 				if after.Partition != p.Partition {
 					viol("partition_index_changed", fmt.Sprintf("%s: partition %d became %d", tp.Name, p.Partition, after.Partition), loc)
@@ -713,6 +778,11 @@ func TestVerifC31Rewrite(t *testing.T) {
 						viol("untouched_partition_bytes_changed", fmt.Sprintf("%s/%d has no flagged record but its record bytes changed", tp.Name, p.Partition), loc)
 					}
 					r.Count("untouched_partitions", 1)
+					continue
+				}
+				// codec bits first: a changed codec would otherwise surface as an unreadable record section
+				if codecChanged := c31CodecPrepass(after.Records, p.Batches); codecChanged != "" {
+					viol("batch_codec_changed", fmt.Sprintf("%s/%d: %s", tp.Name, p.Partition, codecChanged), loc)
 					continue
 				}
 				got, raws, err := c31DecodeBatches(after.Records)
@@ -868,7 +938,7 @@ func TestVerifC31Rewrite(t *testing.T) {
 		}
 
 		// what a broker would parse after the fan-out re-encodes the rewritten request
-		if ok {
+		if ok && !routed {
 			var out []byte
 			func() {
 				defer func() { panicked = recover() }()
@@ -914,21 +984,23 @@ func TestVerifC31Rewrite(t *testing.T) {
 			r.Sample(c31Describe(&c))
 		}
 	}
-	q := int64(1)
-	if r.Thorough() {
-		q = 20
-	}
-	r.Floor("rewritten_requests", 300*q)
-	r.Floor("flagged_records", 600*q)
-	r.Floor("unflagged_records_in_rewritten_batches", 300*q)
-	r.Floor("untouched_batches_next_to_rewritten", 50*q)
+	// floors scale with the length of the case list (observed rates are 2-10x higher)
+	fl := func(frac float64) int64 { return int64(float64(n) * frac) }
+	r.Floor("rewritten_requests", fl(0.4))
+	r.Floor("flagged_records", fl(1.0))
+	r.Floor("unflagged_records_in_rewritten_batches", fl(0.5))
+	r.Floor("untouched_batches_next_to_rewritten", fl(0.1))
 	for _, cn := range c31CodecNames {
-		r.Floor("rewritten_batches_"+cn, 40*q)
+		r.Floor("rewritten_batches_"+cn, fl(0.1))
 	}
-	r.Floor("rewritten_batches_snappy_xerial_input", 5*q)
-	r.Floor("flagged_values_uploaded_multipart", 50*q)
-	r.Floor("flagged_null_values", 5*q)
-	r.Floor("wire_roundtrips", 300*q)
+	r.Floor("rewritten_batches_snappy_xerial_input", fl(0.02))
+	r.Floor("flagged_values_uploaded_multipart", fl(0.1))
+	r.Floor("flagged_null_values", fl(0.02))
+	if routed {
+		r.Floor("requests_received_by_backend", fl(0.4))
+	} else {
+		r.Floor("wire_roundtrips", fl(0.4))
+	}
 }
 
 // c31SkipRequestHeader returns the body after a request header v1 (or v2 when flexible).
